@@ -361,13 +361,96 @@ pub fn gen_name(rng: &mut Rng, sjis: bool) -> String {
     }
 }
 
+/// A 64-bit word taking the special values a fast path or early exit would test: 0, all ones,
+/// a single bit, a single nibble / byte, the previous word, or random.
+pub fn sentinel_word(rng: &mut Rng, prev: u64) -> u64 {
+    match rng.below(10) {
+        0 | 1 => 0,
+        2 => u64::MAX,
+        3 => 1u64 << rng.below(64),
+        4 => (1 + rng.below(15)) << (4 * rng.below(16)),
+        5 => 0xFFu64 << (8 * rng.below(8)),
+        6 => prev,
+        7 => !(1u64 << rng.below(64)),
+        _ => rng.next(),
+    }
+}
+
+/// Structured ("sentinel-aware") payload of `len` bytes for a texture of format `fmt`: whole
+/// payload / whole units (texels, 8-byte words, 64-texel tiles or 2x2-block tiles) equal to zero,
+/// all ones, a single bit, or the previous unit, next to random ones.  For ETC1A4 the alpha word and
+/// the colour word of a block are drawn independently (zero alpha with a non-black colour word etc.).
+pub fn sentinel_payload(rng: &mut Rng, fmt: u32, len: usize, style: u64) -> Vec<u8> {
+    let mut p = Vec::with_capacity(len);
+    match style % 6 {
+        0 => p.resize(len, 0),
+        1 => p.resize(len, 0xFF),
+        2 | 3 => {
+            // word-wise sentinels (for ETC1A4: alpha word, colour word alternate)
+            let mut prev = [rng.next(), rng.next()];
+            let mut k = 0;
+            while p.len() < len {
+                let w = if fmt == 13 && k % 2 == 1 && style % 6 == 3 {
+                    // a colour word that is legal and not black: individual mode, random bases
+                    rng.next() & !(1u64 << 33) | (0x5u64 << 60)
+                } else {
+                    sentinel_word(rng, prev[k % 2])
+                };
+                prev[k % 2] = w;
+                k += 1;
+                p.extend_from_slice(&w.to_le_bytes());
+            }
+            p.truncate(len);
+        }
+        4 => {
+            // tile-wise: runs of 8x8-pixel tiles that are all zero / all ones / random / a copy of the previous tile
+            let tile = (bits_per_pixel(fmt).unwrap_or(8) * 64 / 8).max(1);
+            let mut prev: Vec<u8> = rng.bytes(tile);
+            while p.len() < len {
+                let t: Vec<u8> = match rng.below(5) {
+                    0 | 1 => vec![0; tile],
+                    2 => vec![0xFF; tile],
+                    3 => prev.clone(),
+                    _ => rng.bytes(tile),
+                };
+                p.extend_from_slice(&t);
+                prev = t;
+            }
+            p.truncate(len);
+        }
+        _ => {
+            // byte-wise: mostly 0x00 / 0xFF with a few other bytes (single-bit texels, repeated texels)
+            let mut prev = 0u8;
+            for _ in 0..len {
+                let b = match rng.below(8) {
+                    0 | 1 | 2 => 0,
+                    3 | 4 => 0xFF,
+                    5 => 1 << rng.below(8),
+                    6 => prev,
+                    _ => rng.next() as u8,
+                };
+                prev = b;
+                p.push(b);
+            }
+        }
+    }
+    p
+}
+
 pub fn gen_tex_3ds(rng: &mut Rng, sjis: bool, big: bool) -> Tex {
     let fmt = *rng.pick(&FORMATS_3DS);
     let sizes: &[u32] = if big { &[8, 16, 32] } else { &[8, 8, 8, 16] };
     let w = *rng.pick(sizes);
     let h = *rng.pick(sizes);
     let len = bits_per_pixel(fmt).unwrap() * (w * h) as usize / 8;
-    Tex { name: gen_name(rng, sjis), w, h, fmt, payload: rng.bytes(len), palette: Vec::new() }
+    // one payload in three is structured (zero / all-ones / single-bit words, zero tiles, ...)
+    let payload = if rng.chance(1, 3) {
+        let style = rng.next();
+        sentinel_payload(rng, fmt, len, style)
+    } else {
+        rng.bytes(len)
+    };
+    Tex { name: gen_name(rng, sjis), w, h, fmt, payload, palette: Vec::new() }
 }
 
 pub fn gen_tex_tpl(rng: &mut Rng, big: bool) -> Tex {
